@@ -420,3 +420,132 @@ func mergeRemovalKeyed(w *load.World, c *core.Collector) {
 		c.Add("DOCFLOW", "anchor:merge-site", core.Undecided, "", "no function unmarshals a stored document into a map and marshals it again: the update merge was not found", props...)
 	}
 }
+
+// transformsOf: the functions handed to utils.TransformWithContext anywhere in the module
+func transformsOf(w *load.World) []*ssa.Function {
+	tw := findFn(w, "utils.TransformWithContext")
+	if tw == nil {
+		return nil
+	}
+	set := map[*ssa.Function]bool{}
+	for _, f := range w.Fns {
+		if !load.InMod(f) {
+			continue
+		}
+		for _, b := range f.Blocks {
+			for _, in := range b.Instrs {
+				ci, ok := in.(ssa.CallInstruction)
+				if !ok {
+					continue
+				}
+				g := ci.Common().StaticCallee()
+				if g == nil || g.Origin() != tw && g != tw {
+					continue
+				}
+				for _, a := range ci.Common().Args {
+					for i := 0; i < 3; i++ {
+						switch x := a.(type) {
+						case *ssa.ChangeType:
+							a = x.X
+						case *ssa.MakeClosure:
+							a = x.Fn
+						}
+					}
+					if h, ok := a.(*ssa.Function); ok && len(h.Blocks) > 0 {
+						set[h] = true
+					}
+				}
+			}
+		}
+	}
+	var out []*ssa.Function
+	for f := range set {
+		out = append(out, f)
+	}
+	sort.Slice(out, func(i, j int) bool { return out[i].String() < out[j].String() })
+	return out
+}
+
+// errorNotSkipped: the pipeline stage looks at a transform's skip result before it looks at its
+// error. A transform that builds an error (fmt.Errorf, errors.New) therefore returns it with
+// skip false: with skip possibly true the stage drops the error and carries on, and the batch
+// reports success although one of its points failed.
+func errorNotSkipped(w *load.World, c *core.Collector) {
+	fns := transformsOf(w)
+	if len(fns) < 6 {
+		c.Add("DOCFLOW", "anchor:pipeline-transforms", core.Undecided, "", fmt.Sprintf("found %d transforms handed to TransformWithContext, expected at least 6", len(fns)), "C07")
+	}
+	isBuilt := func(v ssa.Value) bool {
+		seen := map[ssa.Value]bool{}
+		var rec func(v ssa.Value, d int) bool
+		rec = func(v ssa.Value, d int) bool {
+			if d > 5 || seen[v] {
+				return false
+			}
+			seen[v] = true
+			switch x := v.(type) {
+			case *ssa.Call:
+				n := staticName(x)
+				return n == "fmt.Errorf" || n == "errors.New" || n == "errors.Join"
+			case *ssa.Phi:
+				for _, e := range x.Edges {
+					if rec(e, d+1) {
+						return true
+					}
+				}
+			case *ssa.MakeInterface:
+				return rec(x.X, d+1)
+			}
+			return false
+		}
+		return rec(v, 0)
+	}
+	done := map[string]bool{}
+	for _, f := range fns {
+		key := "error-not-skipped:" + load.FnKey(f)
+		if o := f.Origin(); o != nil {
+			key = "error-not-skipped:" + load.FnKey(o)
+		}
+		if done[key] || f.Signature.Results().Len() != 3 {
+			continue
+		}
+		done[key] = true
+		props := []string{"C07"}
+		bad := ""
+		for _, b := range f.Blocks {
+			ret, ok := b.Instrs[len(b.Instrs)-1].(*ssa.Return)
+			if !ok || len(ret.Results) != 3 {
+				continue
+			}
+			errV := ssax.ReturnOperand(ret, 2)
+			skipV := ssax.ReturnOperand(ret, 1)
+			// the error built on this path: a phi is resolved per incoming edge together with skip
+			type pair struct{ e, s ssa.Value }
+			pairs := []pair{{errV, skipV}}
+			if ep, ok := errV.(*ssa.Phi); ok && ep.Block() == b {
+				pairs = nil
+				for i, e := range ep.Edges {
+					s := skipV
+					if sp, ok := skipV.(*ssa.Phi); ok && sp.Block() == b {
+						s = sp.Edges[i]
+					}
+					pairs = append(pairs, pair{e, s})
+				}
+			}
+			for _, p := range pairs {
+				if !isBuilt(p.e) {
+					continue
+				}
+				if k, ok := p.s.(*ssa.Const); ok && k.Value != nil && k.Value.Kind() == constant.Bool && !constant.BoolVal(k.Value) {
+					continue
+				}
+				bad = w.At(ret)
+			}
+		}
+		if bad != "" {
+			c.Add("DOCFLOW", key, core.Violation, bad, "an error built here is returned with a skip result that is not constantly false: the pipeline stage tests skip first, drops the error and goes on, and the batch reports success although this point failed", props...)
+		} else {
+			c.Add("DOCFLOW", key, core.OK, w.Position(f.Pos()), "", props...)
+		}
+	}
+}
